@@ -11,7 +11,7 @@ PROP = "C12"
 RULE = ("seeded random files (valid, and single-fault files rejected by the loader) x corpus trees: one loaded file executed repeatedly, "
         "interleaved over 2-3 trees and from 4 concurrent threads, every result (graph incl. numbering, pretty text, error text, load "
         "diagnostic incl. its pretty form) compared with an isolated run on a fresh load; the whole transcript repeated in 3 OS "
-        "processes (fresh hash seeds) and compared byte for byte; on the model TLC explores every interleaving of two executions of "
+        "processes (fresh hash seeds; one of them runs the sessions in the opposite order) and compared per session; on the model TLC explores every interleaving of two executions of "
         "one file (MCSession: Isolation, NoCrossTalk); non-trivial = at least one stanza matched in some run")
 
 
@@ -91,17 +91,31 @@ def run(tier):
         if "text" not in c or c.get("outcome", {}).get("status") in (None, "load_err"):
             continue
         trees = [c["src"]] + [r.randint(1, nsrc) for _ in range(r.randint(1, 2))]
-        sessions.append({"id": c["id"], "text": c["text"], "mode": c["mode"], "srcs": trees, "globals": c.get("globals", {}), "dbg": bool(c.get("session_dbg"))})
+        sessions.append({"id": c["id"], "text": c["text"], "mode": c["mode"], "srcs": trees, "globals": c.get("globals", {}),
+                         "dbg": bool(c.get("session_dbg")) or bool(c.get("dbg", {}).get("on"))})
     for i, t in enumerate(faulty_texts(r)):
         sessions.append({"id": "c12f-%d" % i, "text": t, "mode": "strict", "srcs": [2], "globals": {}})
+    # several required globals missing at once (which one is reported must not vary), with and without some supplied
+    for i, (decl, glob) in enumerate([("global A\nglobal B\nglobal C\n", {}), ("global zeta\nglobal alpha\nglobal mid\nglobal beta\n", {"mid": A.vstr("m")}),
+                                      ("global L*\nglobal R+\nglobal S\n", {}), ("global A\nglobal B = \"d\"\nglobal C\nglobal D\n", {"A": A.vstr("a")})]):
+        for mode in ("strict", "lazy"):
+            sessions.append({"id": "c12g-%d-%s" % (i, mode), "text": decl + "(module) @_m { node n }\n", "mode": mode, "srcs": [2, 5], "globals": glob, "dbg": False})
+    # files that differ only in names, executed one after the other in the same thread with debug attributes
+    for i, nm in enumerate(["n", "k", "other", "n"]):
+        sessions.append({"id": "c12t-%d" % i, "text": "(identifier) @_id {\n  node %s\n  attr (%s) v = 1\n}\n" % (nm, nm), "mode": "strict" if i % 2 else "lazy",
+                         "srcs": [2, 7], "globals": {}, "dbg": True})
     sin = os.path.join(d, "sessions.ndjson")
     C.write_ndjson(sin, sessions)
+    # the second process runs the sessions in the opposite order: state that leaks from one file's executions into another's
+    # shows up as a difference between the processes
+    sin_rev = os.path.join(d, "sessions.rev.ndjson")
+    C.write_ndjson(sin_rev, list(reversed(sessions)))
     outs = []
     nproc = 3
     for k in range(nproc):
         sout = os.path.join(d, "sessions.out%d.ndjson" % k)
         with open(os.devnull, "w") as devnull:
-            p = subprocess.run([C.TSGV, "session", C.CORPUS_PY, sin, sout], stdout=subprocess.PIPE, stderr=devnull, text=True, timeout=3000)
+            p = subprocess.run([C.TSGV, "session", C.CORPUS_PY, sin_rev if k == 1 else sin, sout], stdout=subprocess.PIPE, stderr=devnull, text=True, timeout=3000)
         C.killed_from_outside(p.returncode)
         if p.returncode != 0:
             V.violation("session-process-%d" % k, {"property": PROP, "detail": "the session process died with status %d" % p.returncode}, {"observed": "abort"})
